@@ -20,6 +20,8 @@ Scenario line (space separated, 13 tokens):
     hv      header variant (extra origin headers): 0 none, 1 Content-Type+ETag, 2 Content-Range matching the body (for 206), 3 HTTP/1.0 status line
 Observation:
   st=<status> fr=<cl:n|chunked|close|none> len=<n> fnv=<16 hex> end=<complete|eof|timeout|reset|nohead|badframe:why> conn=<keep|close> next=<ok|bad:why|->
+     (conn: what happened to the connection after a complete message: keep = a second request on it was answered; next: the answer to that request was
+      the expected one / octets followed the message / the connection was announced to close but stayed open)
   [ | the same for the second fetch ] arrivals=<k>
 """
 import os, re, socket, threading, time
@@ -478,7 +480,10 @@ class Harness:
         self.n = 0
         self.lock = threading.Lock()
         self.crashes = 0
-        self.origin.on("probe", lambda req: [("send", rig.simple_response(200, PROBE, [("Cache-Control", "no-store")]))])
+        # the follow-up request on a kept-alive client connection goes to a second origin, so that it never travels over an origin
+        # connection a scenario left in a bad state: its outcome then speaks about the client connection only
+        self.probe_origin = Origin()
+        self.probe_origin.on("probe", lambda req: [("send", rig.simple_response(200, PROBE, [("Cache-Control", "no-store")]))])
 
     def _start(self, s):
         for attempt in range(4):
@@ -535,9 +540,11 @@ class Harness:
                     if r["rest"]:
                         nxt = "bad:bytes-after-message"
                     else:
-                        c.sendall(("GET %s HTTP/1.1\r\nHost: %s\r\nConnection: close\r\n\r\n" % (self.origin.url("probe", "x"), hostport)).encode())
+                        c.sendall(("GET %s HTTP/1.1\r\nHost: 127.0.0.1:%d\r\nConnection: close\r\n\r\n" % (self.probe_origin.url("probe", "x"), self.probe_origin.port)).encode())
                         r2 = read_response(c, b"", False, T)
-                        if r2["end"] != "complete":
+                        if r2["end"] == "nohead" and r2.get("how") in ("eof", "reset"):
+                            conn = "close"      # keep-alive was announced but the connection was closed after the complete message
+                        elif r2["end"] != "complete":
                             nxt = "bad:probe-" + r2["end"]
                         elif r2["status"] != 200 or r2["body"] != PROBE:
                             nxt = "bad:probe-%d-%s" % (r2["status"], hx(r2["body"][:12]))
@@ -580,3 +587,4 @@ class Harness:
         for s in self.sq.values():
             s.stop()
         self.origin.close()
+        self.probe_origin.close()
